@@ -75,6 +75,22 @@ def cases(ctx):
             ctx.count('sign-segwit' if segwit else 'sign-legacy')
             yield Case(f'sign {d} {1 if segwit else 0} {tx_to_line(tx)} {i} {toks_str(code)} {amt} {ht}', 's', nontrivial=True, tag='sign',
                        spec=sign_spec)
+            # the translated public methods (sign_input / sign_segwit_input: digest of the transaction object, then the grinding signer) against
+            # the implementation, python-ecdsa replaced on both sides by a signer that answers with the logged attempts for the expected digest only
+            if rng.random() < 0.5:
+                try:
+                    k = PrivateKey(secret_exponent=d); pr = Proxy(k.key); k.key = pr
+                    if segwit: k.sign_segwit_input(tx, i, Script(code), amt, ht)
+                    else: k.sign_input(tx, i, Script(code), ht)
+                except Exception:
+                    pr = None
+                if pr is not None and pr.log and pr.digests:
+                    ctx.count('gen-wrapper')
+                    want = pr.digests[0]
+                    for dg in (want, bytes([want[0] ^ 1]) + want[1:]):         # … and for a digest the signer was not asked about
+                        yield Case(f'pk_sign {1 if segwit else 0} {tx_to_line(tx)} {i} {toks_str(code)} {amt} {ht} {hx(dg)} ' +
+                                   ' '.join([str(len(pr.log))] + [hx(x) for x in pr.log]), 'g', nontrivial=True,
+                                   tag='gen-wrapper' if dg == want else 'gen-wrapper-other-digest', domain=dg == want)
 
 
 def refuse_cases(ctx):
@@ -119,10 +135,19 @@ def cases(ctx):  # noqa: F811
 
 class Proxy:
     """records what python-ecdsa returns for every attempt"""
-    def __init__(self, key): self.key = key; self.log = []
+    def __init__(self, key): self.key = key; self.log = []; self.digests = []
     def sign_digest_deterministic(self, *a, **kw):
-        r = self.key.sign_digest_deterministic(*a, **kw); self.log.append(r); return r
+        r = self.key.sign_digest_deterministic(*a, **kw); self.log.append(r); self.digests.append(a[0] if a else kw.get('digest')); return r
     def __getattr__(self, n): return getattr(self.key, n)
+
+
+class DStub:
+    """answers with the logged attempts when handed the expected digest, with nothing otherwise"""
+    def __init__(self, want, atts): self.want = want; self.atts = list(atts)
+    def sign_digest_deterministic(self, digest, extra_entropy=b'', **kw):
+        if digest != self.want: return b''
+        k = int.from_bytes(extra_entropy, 'big') if extra_entropy else 0
+        return self.atts[k] if k < len(self.atts) else b''
 
 
 class Stub:
@@ -142,6 +167,11 @@ def impl(op, a, ctx):
         k = PrivateKey(secret_exponent=1)
         k.key = Stub(atts)
         return 'ok ' + k._sign_input(bytes(32), ht)
+    if op == 'pk_sign':
+        segwit = F.bool(); tx = line_to_tx(F); i = F.nat(); code = Script(F.toks()); amt = F.int(); ht = F.nat(); want = F.bytes()
+        atts = F.list(F.bytes); F.done()
+        k = PrivateKey(secret_exponent=1); k.key = DStub(want, atts)
+        return 'ok ' + (k.sign_segwit_input(tx, i, code, amt, ht) if segwit else k.sign_input(tx, i, code, ht))
     if op == 'der_norm':
         atts = F.list(F.bytes); ht = F.nat(); F.done()
         k = PrivateKey(secret_exponent=1)
